@@ -116,7 +116,9 @@ func (g s1Gen) query() string {
 	if g.rng.Chance(1, 2) {
 		b.WriteString(" order by id(n)")
 		if g.rng.Bool() {
-			b.WriteString(" desc")
+			b.WriteString(descSpelling(b.Len()))
+		} else {
+			b.WriteString(ascSpelling(b.Len()))
 		}
 		if g.rng.Chance(1, 2) {
 			b.WriteString(" skip " + Pick(g.rng, []string{"0", "1", "2"}))
